@@ -151,7 +151,8 @@ PLANS["C02"] = {
 }
 PLANS["C03"] = {
     "jobs": lambda seed, tier: spread(seed, "C03", N(tier, 150, 3000), MODEL_LOGICS, "models") +
-                               spread(seed, "C03i", N(tier, 60, 1200), ["QF_UFLRA", "QF_UFLIA"], "models", mode="interface"),
+                               spread(seed, "C03i", N(tier, 60, 1200), ["QF_UFLRA", "QF_UFLIA"], "models", mode="interface") +
+                               spread(seed, "C03s", N(tier, 90, 1800), ["QF_LRA", "QF_LRA", "QF_LIA"], "models", mode="sums", nnum=4, box=False),
     "rule": "satisfiable-biased scripts with get-model, get-value and get-assignment after every check; non-trivial = a model was printed",
 }
 def frames_jobs(seed, pid, n):
